@@ -13,7 +13,7 @@ TRUSTED_BASE = [
 PROPS = {
     "C02": {
         "coq": "Properties/C02.v",
-        "pinchecks": ["PinChecks/PcEffector.v", "PinChecks/PcEffectorGen.v"],
+        "pinchecks": ["PinChecks/PcEffector.v", "PinChecks/PcEffectorGen.v"] + ["PinChecks/PcBody_enf.v", "PinChecks/PcBody_fmacros.v"],
         "gen": "c02",
         "level_text": "Coq theorems (c02_result, c02_early_final, c02_cap_complete, c02_next_readable, c02_forced_*) prove for every "
                       "effect rule and every finite sequence (unbounded length) that the streaming combiner equals the declarative "
@@ -30,7 +30,7 @@ PROPS = {
     "C03": {
         "coq": "Properties/C03.v",
         "coq_extra": ["Properties/C03M.v"],
-        "pinchecks": ["PinChecks/PcRoleGraph.v"],
+        "pinchecks": ["PinChecks/PcRoleGraph.v"] + ["PinChecks/PcBody_frolemanager.v"],
         "gen": "c03",
         "level_text": "Coq theorems over Model/RoleGraph.v, for every history of add_link/delete_link/clear and every query: the per-domain "
                       "edge set refines the set-semantics spec (c03_links_refine), has_link is sound at every depth (c03_sound) and complete "
@@ -57,7 +57,7 @@ PROPS = {
         "coq": "Properties/C01.v",
         "coq_extra": ["Properties/C16e.v"],
         "pinchecks": ["PinChecks/PcBody_enf.v", "PinChecks/PcLiterals.v", "PinChecks/PcBody_fmacros.v", "PinChecks/PcEffector.v", "PinChecks/PcEffectorGen.v",
-                      "PinChecks/PcBody_fconvert.v", "PinChecks/PcBody_util.v", "PinChecks/PcStrFnGen.v"],
+                      "PinChecks/PcBody_fconvert.v", "PinChecks/PcBody_util.v", "PinChecks/PcStrFnGen.v"] + ["PinChecks/PcBody_model.v", "PinChecks/PcRoleGraph.v"],
         "gen": "c01",
         "level_text": "Coq theorem c01_enforce_is_perm: for EVERY model store, matcher AST, function table, request (any arity/types), "
                       "effect rule and flag the enforcement loop of the model equals the PERM reference (per-rule outcomes in stored order, "
@@ -103,7 +103,7 @@ PROPS.update({
     "C06": {
         "coq": "Properties/C06.v",
         "pinchecks": ["PinChecks/PcBody_enf.v", "PinChecks/PcBody_fmap.v", "PinChecks/PcStrFnGen.v", "PinChecks/PcLiterals.v", "PinChecks/PcEffector.v", "PinChecks/PcEffectorGen.v", "PinChecks/PcBody_fconvert.v",
-                      "PinChecks/PcBody_fmacros.v", "PinChecks/PcRoleGraph.v"],
+                      "PinChecks/PcBody_fmacros.v", "PinChecks/PcRoleGraph.v"] + ["PinChecks/PcBody_ferror.v"],
         "gen": "c06",
         "partial": "never-hang / never-panic of the regex crate and of rhai is NOT a theorem: it is watchdog + catch_unwind evidence from the differential run; "
                    "the theorems cover the model's enforcement loop and built-ins",
@@ -133,7 +133,7 @@ PROPS.update({
     },
     "C10": {
         "coq": "Properties/C10.v",
-        "pinchecks": ENGINE_PINS,
+        "pinchecks": ENGINE_PINS + ["PinChecks/PcBody_fadaptermod.v"],
         "gen": "c10",
         "partial": "durability below the system-call layer (fsync, page cache, power loss) is outside any executable model: c10_save_atomic is about the sequence "
                    "of file-system calls the adapter issues, assuming rename is atomic",
@@ -151,7 +151,7 @@ PROPS.update({
     },
     "C14": {
         "coq": "Properties/C14.v",
-        "pinchecks": ENGINE_PINS + ["PinChecks/PcBody_femitter.v"],
+        "pinchecks": ENGINE_PINS + ["PinChecks/PcBody_fwatcher.v"] + ["PinChecks/PcBody_femitter.v"],
         "gen": "c14",
         "level_text": "Coq theorems over the engine with a watcher: NotifyInv (exactly one callback while enabled) for every reachable state, c14_delivery_single "
                       "(Ok true = exactly one event with the exact payload; Ok false / adapter error = none; late error = delivered), c14_filtered_payload, "
@@ -166,7 +166,7 @@ PROPS.update({
     "C09": {
         "coq": "Properties/C09.v",
         "coq_extra": ["Properties/C09text.v", "Properties/C16q.v"],
-        "pinchecks": ENGINE_PINS,
+        "pinchecks": ENGINE_PINS + ["PinChecks/PcBody_util.v", "PinChecks/PcStrFnGen.v"],
         "gen": "c09",
         "level_text": "Coq theorems: AdapterSync (MemoryAdapter lines = in-memory policy, rule for rule, same order) holds after construction and is preserved by "
                       "EVERY management call with auto-save on - accepted, duplicate, refused, failed, late role-link error, panic (c09_step, c09_history, "
@@ -180,7 +180,7 @@ PROPS.update({
     },
     "C08": {
         "coq": "Properties/C08.v",
-        "pinchecks": ENGINE_PINS,
+        "pinchecks": ENGINE_PINS + ["PinChecks/PcEffector.v", "PinChecks/PcEffectorGen.v"],
         "gen": "c08",
         "level_text": "Coq theorems: c08_eval_mono (negation-free matchers are monotone in the role relation), c08_has_link_mono (edge inclusion preserves "
                       "has_link below the depth limit), c08_add_rule_keeps_grants / c08_remove_rule_keeps_denials, c08_add_link_keeps_grants / "
@@ -251,7 +251,7 @@ PROPS.update({
     },
     "C12": {
         "coq": "Properties/C12.v",
-        "pinchecks": ENGINE_PINS,
+        "pinchecks": ENGINE_PINS + ["PinChecks/PcBody_fadaptermod.v"],
         "gen": "c12",
         "level_text": "Coq theorems for File, Memory and String adapters: the filtered load equals filter_spec applied to the full load, for any lines and filters "
                       "(c12_load_filtered_general), never panics (c12_load_filtered_total), the flag is exactly 'some line was left out' (c12_flag_meaning, "
@@ -278,7 +278,7 @@ PROPS.update({
 PROPS.update({
     "C11": {
         "coq": "Properties/C11.v",
-        "pinchecks": ENGINE_PINS + ["PinChecks/PcBody_fcachedenforcer.v", "PinChecks/PcBody_fdefaultcache.v", "PinChecks/PcBody_femitter.v", "PinChecks/PcCached.v"],
+        "pinchecks": ENGINE_PINS + ["PinChecks/PcBody_fconvert.v"] + ["PinChecks/PcBody_fcachedenforcer.v", "PinChecks/PcBody_fdefaultcache.v", "PinChecks/PcBody_femitter.v", "PinChecks/PcCached.v"],
         "gen": "c11",
         "level_text": "Coq theorems over Model/Cached.v: cache coherence is an invariant of every history over the complete mutating surface and every request "
                       "(c11_coherent_reachable), a call that keeps the cache changes no decision (c11_noclear_no_change), the cached step refines the plain step "
@@ -314,7 +314,7 @@ PROPS.update({
 PROPS.update({
     "C20": {
         "coq": "Properties/C20.v",
-        "pinchecks": ["PinChecks/PcLocks.v", "PinChecks/PcBody_fmacros.v", "PinChecks/PcBody_frbacapi.v", "PinChecks/PcBody_enf.v", "PinChecks/PcBody_fcachedenforcer.v"],
+        "pinchecks": ["PinChecks/PcLocks.v", "PinChecks/PcBody_fmacros.v", "PinChecks/PcBody_frbacapi.v", "PinChecks/PcBody_enf.v", "PinChecks/PcBody_fcachedenforcer.v"] + ["PinChecks/PcBody_fdefaultcache.v", "PinChecks/PcCached.v", "PinChecks/PcRoleGraph.v"],
         "gen": "c20",
         "partial": "PARTIAL by nature: the theorems are about an abstract small-step semantics of two writer-preferring, non-re-entrant read-write locks and the "
                    "thread programs the code follows; that rustc / parking_lot / mini-moka / rhai implement those semantics (memory model, fairness, Send/Sync "
@@ -336,7 +336,7 @@ PROPS.update({
     "C16": {
         "coq": "Properties/C16.v",
         "coq_extra": ["Properties/C16q.v", "Properties/C09text.v", "Properties/C16e.v"],
-        "pinchecks": ["PinChecks/PcBody_util.v", "PinChecks/PcStrFnGen.v", "PinChecks/PcBody_model.v", "PinChecks/PcBody_adapters.v", "PinChecks/PcLiterals.v"],
+        "pinchecks": ["PinChecks/PcBody_util.v", "PinChecks/PcStrFnGen.v", "PinChecks/PcBody_model.v", "PinChecks/PcBody_adapters.v", "PinChecks/PcLiterals.v"] + ["PinChecks/PcBody_ffrontend.v"],
         "gen": "c16",
         "level_text": "Coq theorems at BYTE level over Model/Csv.v and Model/Ini.v (validated against the real functions through the cfg(casbin_verif) hooks): "
                       "c16_parse_render_row (every csv-safe row under every spacing/quoting layout parses back, scanner fuel proved adequate), file level with "
